@@ -71,6 +71,8 @@ class Sym:
         if isinstance(n, (ast.Name, ast.Attribute)):
             k = self.key(n)
             if k in self.env:
+                if isinstance(self.env[k], list):
+                    self.bad(n, 'a tuple used as a number')
                 return self.env[k]
             if isinstance(k, tuple) and k[0] in self.objs:
                 return f'{self.objs[k[0]]}.{k[1]}'
@@ -93,12 +95,21 @@ class Sym:
 
     def assign(self, target, value):
         """Python semantics: the whole right-hand side is evaluated before any store."""
-        if isinstance(target, ast.Tuple):
-            if not isinstance(value, ast.Tuple) or len(value.elts) != len(target.elts):
-                self.bad(value, 'tuple assignment from a non-literal tuple')
+        if isinstance(value, ast.Tuple):
             vals = [self.expr(v) for v in value.elts]
+        elif isinstance(value, ast.Name) and isinstance(self.env.get(value.id), list):
+            vals = list(self.env[value.id])          # a local that holds a tuple of terms
+        else:
+            vals = None
+        if isinstance(target, ast.Tuple):
+            if vals is None or len(vals) != len(target.elts):
+                self.bad(value, 'tuple assignment from something that is not a tuple of the same length')
             for t, v in zip(target.elts, vals):
                 self.env[self.key(t)] = v
+        elif vals is not None:
+            if not isinstance(target, ast.Name):
+                self.bad(value, 'tuple stored into a slot')
+            self.env[target.id] = vals
         else:
             self.env[self.key(target)] = self.expr(value)
 
